@@ -4,4 +4,5 @@ package props
 import (
 	_ "verif/sim/c03"
 	_ "verif/sim/c08"
+	_ "verif/sim/c19"
 )
